@@ -18,8 +18,9 @@ RULE = ("Completed runs of both front ends from the shared end-to-end generator 
         "sum/mean/median are those of that list (as a multiset); per-cluster mean/median equal those of the reference "
         "log-densities of the windows labelled k under the final model (run_end hook), 0 for a cluster that owns no window; "
         "the list itself equals those reference densities as a multiset. Joint runs whose cost equals the all-pairs formula "
-        "(boundary pairs priced) match the signature of known finding KF1. Non-trivial = >=1 label switch and (an empty final "
-        "cluster or >=2 series); distinct by SHA-1 of the case.")
+        "(boundary pairs priced) match the signature of known finding KF1. A second family runs single series with 4097..9000 "
+        "stacked rows, short regimes and a regime change placed exactly at rows 4096 and 8192. Non-trivial = >=1 label switch "
+        "and (an empty final cluster or >=2 series or more than 4096 stacked rows); distinct by SHA-1 of the case.")
 ASSUMPTIONS = ["cluster association of per-point values comes from reference densities under the final model (hook), not from the list layout",
                "tolerance: relative 1e-9 of the sum of absolute terms (plus the condition-number-aware bound of C05 for densities)"]
 
@@ -99,12 +100,16 @@ def execute(case, t):
     scale = ssum + sum(betas)
     tolc = 1e-9 * (scale + 1.0)
     ce.classify(tr, t)
+    if T > 4096:
+        t.cls("more_than_4096_stacked_rows")
+        if master[4095] != master[4096]:
+            t.cls("label_change_at_row_4096")
     sw = ce.n_switches(master)
     boundary_switch = any(master[i] != master[i + 1] for i in bset)
     if boundary_switch:
         t.cls("switch_at_series_boundary")
     empty = any(len(c["members"]) == 0 for c in tr.end["model"]["clusters"])
-    if sw >= 1 and (empty or len(tr.series) >= 2):
+    if sw >= 1 and (empty or len(tr.series) >= 2 or T > 4096):
         t.mark_nontrivial(ce.brief_result(tr))
     if abs(cost - (-overall + within)) <= tolc:
         pass
@@ -124,6 +129,8 @@ def _pinned():
 
 
 SUBCHECKS = [
+    SubCheck(name="result_accounting_long_series", strategy=gen.e2e_long_config, execute=execute,
+             budget={"quick": 15, "thorough": 400}, shards={"quick": 3, "thorough": 16}, modes=E2E_MODES),
     SubCheck(name="result_accounting", strategy=_strategy, execute=execute, pinned=_pinned,
              budget={"quick": 240, "thorough": 6000}, shards={"quick": 16, "thorough": 8}, modes=E2E_MODES,
              min_nontrivial_fraction=0.15),
